@@ -340,7 +340,7 @@ CONTEXTS = [('scalar-alias-before', S('int', '1'), True), ('collection-alias-bef
             ('scalar-alias-after', S('str', 'a'), False), ('collection-alias-after', M([(S('str', 'k'), S('int', '1'))]), False)]
 
 
-def context_cases(res, case, spec, fam, tree0, op, site, tree1):
+def context_cases(res, case, spec, fam, tree0, op, site, tree1, tier='thorough'):
     """the same corrupted document as attribute `v` of an enclosing object that also has two untyped attributes, one an
     alias of the other (an anchored scalar or collection, before or after `v`): what is said about the corrupted place
     must not depend on an alias elsewhere in the document"""
@@ -349,7 +349,7 @@ def context_cases(res, case, spec, fam, tree0, op, site, tree1):
         ctxb = {'name': 'Ctx', 'params': [('v', spec['root']), ('c', 'any', None), ('d', 'any', None)]}
         case._ctx = (loadcase.Case(dict(spec, classes=list(spec['classes']) + [ctx], root=('cls', 'Ctx'))),
                      loadcase.Case(dict(spec, classes=list(spec['classes']) + [ctxb], root=('cls', 'Ctx'))))
-    for cname, shared, before in CONTEXTS:
+    for cname, shared, before in (CONTEXTS if tier == 'thorough' else CONTEXTS[:1] + CONTEXTS[3:]):
         c2 = case._ctx[0 if before else 1]
         pairs0 = [(S('str', 'c'), shared), (S('str', 'd'), shared)]
         w0 = M(pairs0 + [(S('str', 'v'), tree0)]) if before else M([(S('str', 'v'), tree0)] + pairs0)
@@ -415,7 +415,7 @@ def strong_case(res, case, spec, fam, tree0, op, site, tree1, class_paths):
                           op, site, text, sorted(got), sorted(lines), msg.replace('\n', ' / ')[:300]), pl)
         return
     res.hist['strong:line-ok:' + op] += 1
-    context_cases(res, case, spec, fam, tree0, op, site, tree1)
+    context_cases(res, case, spec, fam, tree0, op, site, tree1, getattr(case, '_tier', 'thorough'))
     if names is not None:
         mp = site[:-1] if op == 'misspell' else site
         if mp in class_paths:
@@ -437,6 +437,7 @@ def run_unit(unit, tier):
         return res
     claim, fam, spec = cat(tier)[unit]
     case = loadcase.Case(spec)
+    case._tier = tier
     res.states += 1
     if claim == 'strong':
         trees = docs.valid(spec, spec['root'], k=2)
